@@ -414,7 +414,7 @@ pub fn run(ctx: &Ctx) {
     {
         // value-equal and neighbouring pairs whose scales differ by 10^4 .. 10^6: the only inputs on which the
         // float estimate of floor(gap * log2 10) in the early-out decides (it must never be too large)
-        let gaps: Vec<u64> = t.pick(vec![10_000, 30_103, 100_000], vec![10_000, 16_384, 30_103, 65_536, 100_000, 262_144, 301_030, 1_000_000, 2_097_152, 3_010_300]);
+        let gaps: Vec<u64> = t.pick(vec![10_000, 30_103, 100_000], vec![10_000, 16_384, 30_103, 65_536, 100_000, 262_144, 301_030, 1_000_000]);
         let mut cases = Vec::new();
         for (gi, g) in gaps.iter().enumerate() {
             let xs: &[&str] = t.pick(&["1", "9", "18446744073709551615"], &["1", "3", "9", "18446744073709551615", "340282366920938463463374607431768211456"]);
@@ -427,7 +427,9 @@ pub fn run(ctx: &Ctx) {
         }
         // the checked build is several times slower on operands of 10^5 digits: it takes the two smallest gaps only
         let cases: Vec<BigGap> = if ctx.flavour == "chk" { cases.into_iter().filter(|c| c.gap <= 30_103).collect() } else { cases };
-        ctx.listed("huge-gaps", "biggap", "x vs x*10^g (twin, +1, -1) for g from 10^4 to 3*10^6 (quick: 10^5), x in {1, 3, 9, 2^64-1, 2^128} (quick: 1, 9, 2^64-1): scale gaps far beyond the sweep", cases, check_biggap);
+        // (enumerated, not listed: the cases are independent and the large ones take seconds each, so they are spread over the threads)
+        let total = cases.len() as u64;
+        ctx.enumerated("huge-gaps", "biggap", total, true, "EXHAUSTIVE over the listed tuples: x vs x*10^g (twin, +1, -1) for g from 10^4 to 10^6 (quick: 10^5), x in {1, 3, 9, 2^64-1, 2^128} (quick: 1, 9, 2^64-1): scale gaps far beyond the sweep", move |i| cases.get(i as usize).cloned(), check_biggap);
     }
     let max_len = t.pick(300usize, 3000);
     let n = t.pick(200_000u64, 2_000_000);
